@@ -1285,3 +1285,12 @@ CHECKS["C06"]["note"] = (
     'classes are not in the alphabet. State kept outside the trees is not reset between replayed histories of a '
     'worker.'
 )
+
+CHECKS["C13"]["text"] += (
+    " Round 2: the forms of part (1) also contain the alphabet of the metadata function's affine-block decision (operations "
+    "const + - * / neg, zero second derivative), each form alone in its model: affine 3*p, p+q, p-q, 3*p+q/4-1; non-affine q/p, "
+    "p/q, 2/p, 1/p, -(p*q), -(q/p), p*q+p, p-q/p, (p-q)*p, (p+q)/p, p/(q+1), p*p -- on every attribute of one scalar Real kind per "
+    "variable group (state, algebraic, input, parameter, constant) and a 1-D algebraic (thorough: all 11 Real kinds); 1 587 "
+    "(thorough 3 097) programs, 15 279 / 306 005 histories."
+)
+CHECKS["C13"]["note"] += " Parameter grid points have p, q, q+1 != 0 (division by a parameter that is 0 is not in the alphabet)."
